@@ -438,12 +438,33 @@ class ProgGen:
             return f"{self.name()} = ({self.expr(1)} +§\n{pad}{self.expr(1)})"
         return f"{self.name()} = {self.name()}(§\n{pad}{self.expr(1)},§\n{pad}{self.name()}={self.expr(1)}§\n{' ' * ind})"
 
+    def continuation(self, ind):
+        """An expression broken by a BACKSLASH: word\\⏎word or operator\\⏎word, the continuation line being
+        indented more, as much, less than the statement, or not at all."""
+        r = self.r
+        a, b, c = self.name(), self.name(), self.name()
+        left, right = r.choice([
+            (f"not", f"{a}"), (f"{a} and", f"{b}"), (f"{a} or", f"not {b}"), (f"{a} if {b} else", f"{c}"),
+            (f"{a} in", f"{b}"), (f"{a} is", f"{b}"), (f"{a} is not", f"{b}"), (f"{a} not in", f"{b}"),
+            (f"{a} and not", f"{b}"), (f"0 <= {a} and", f"{a} <= 10"), (f"lambda", f"{a}: {a}"),
+            (f"{a} +", f"{b}"), (f"{a} ==", f"1"), (f"{a} <", f"{b}({c})"), (f"{a}", f"+ {b}"), (f"{a}", f"and {b}"),
+            (f"{a} if {b}", f"else {c}"), (f"[{a} for {a}", f"in {b}]"), (f"[{a} for {a} in", f"{b}]"),
+        ])
+        self.used.add("backslash-continuation")
+        pad = " " * r.choice([ind + 4, ind + 8, ind, max(0, ind - 2), 0, 0, 1])
+        return left + " \\\n" + pad + right
+
     def simple(self, ind, in_def, in_loop):
         r = self.r
         x = r.random()
         hint = None
         if r.random() < 0.12:
             hint = r.choice(["foo", "foo bar", "-baz", "foo... ", "...foo", "a/b:c"])
+        if r.random() < 0.10:
+            e = self.continuation(ind)
+            t = r.choice([f"{self.name()} = {e}", f"return {e}" if in_def else f"{self.name()}({e})", f"assert {e}",
+                          f"{self.name()} += {e}"])
+            return [("code", ind, t, hint)]
         if x < 0.35:
             t = f"{self.name()} = {self.expr()}"
         elif x < 0.45:
@@ -491,7 +512,8 @@ class ProgGen:
                 continue
             sub = ind + r.choice([4, 4, 4, 2])
             if x < 0.72:
-                items.append(("code", ind, f"if {self.expr(1)}:", None))
+                test = self.continuation(ind) if r.random() < 0.2 else self.expr(1)
+                items.append(("code", ind, f"if {test}:", None))
                 items += self.block(sub, depth + 1, in_def, in_loop)
                 if r.random() < 0.4:
                     items.append(("code", ind, f"elif {self.expr(1)}:", None))
@@ -503,7 +525,7 @@ class ProgGen:
                 items.append(("code", ind, f"for {self.name()} in {self.expr(1)}:", None))
                 items += self.block(sub, depth + 1, in_def, True)
             elif x < 0.85:
-                items.append(("code", ind, f"while {self.expr(1)}:", None))
+                items.append(("code", ind, f"while {self.continuation(ind) if r.random() < 0.2 else self.expr(1)}:", None))
                 items += self.block(sub, depth + 1, in_def, True)
             elif x < 0.93:
                 if r.random() < 0.2:
@@ -908,7 +930,28 @@ def n_pass_then_hint(src):
     return "\n".join(l for i, l in enumerate(lines) if i not in kill), True
 
 
+def n_continuation_col0(src):
+    """F25: a backslash-continued line that starts at column 0: indent it by one space (same tree)."""
+    toks, exc = real_tokens(src)
+    if exc:
+        return src, False
+    lines = src.split("\n")
+    rows = set()
+    prev = None
+    for k, s, sr, sc, er, ec in toks:
+        if prev is not None and prev[0] not in ("NEWLINE", "NL", "COMMENT", "INDENT", "DEDENT") and sr > prev[4] \
+                and sc == 0 and k not in ("NEWLINE", "NL", "INDENT", "DEDENT") and s != "":
+            rows.add(sr)
+        prev = (k, s, sr, sc, er, ec)
+    if not rows:
+        return src, False
+    for r in rows:
+        lines[r - 1] = " " + lines[r - 1]
+    return "\n".join(lines), True
+
+
 NEUTRALISERS = [
+    ("C13:backslash-continuation-at-column-0", n_continuation_col0),
     # Only the finding that is still open. The neutralisers of the repaired findings (F08, F18, F19, F21,
     # F22, F23) are deliberately NOT consulted any more: those shapes must now clean correctly.
     ("C13:code-after-main-guard-deleted", n_after_guard),
@@ -1059,6 +1102,10 @@ def property_stream(ctx, drv, stream, cases, seen_sigs):
 
 
 HAND_PICKED = [
+    'def f(done, failed):\n    return not \\\n        done and not failed\n', 'x = first if flag else \\\nsecond\n',
+    'ok = low <= x and \\\n    x <= high\n', 'if a and \\\n   b:\n    pass\n', 'y = 1 + \\\n    2\n',
+    'for i in \\\nxs:\n    pass\n', 'def g(a, b):\n    if a is \\\n    b:\n        return a or \\\nb\n',
+    'z = a \\\n    and b  # c\n', 'while not \\\n        done:\n    done = step()  # paroxython: foo\n',
     'x = f"{{a}}"\n', 'x = f"a{b}c"\n', '"abc".join(x)\n', 'def f():\n    "doc"\n    "-".join(a)\n    return 1\n',
     'x = 1\n"a" if x else "b"\n', '\nx = 1\n', 'x = """a\n\n  b"""\n', 'if x:\n    pass\n    # c\ny = 1\n',
     'class A:\n    """d"""\n\n    x = 1\n', 'x = 1 # paroxython: foo\n# paroxython: bar\n', 'def f():\n    pass\n    pass\n',
